@@ -60,14 +60,16 @@ func errStr(err error) string {
 		return fmt.Sprintf("err excT tid=%d unit=%d fc=%d code=%d", e.TransactionID, e.UnitID, e.Function, e.Code)
 	case *packet.ErrorResponseRTU:
 		return fmt.Sprintf("err excR unit=%d fc=%d code=%d", e.UnitID, e.Function, e.Code)
+	// the library hands these four error types out as pointers (errors.As with a pointer target, the server's type
+	// assertion): the same content returned by value is another error to every consumer
 	case packet.ErrorParseTCP:
-		return fmt.Sprintf("err tcp code=%d tid=%d unit=%d fc=%d", e.Packet.Code, e.Packet.TransactionID, e.Packet.UnitID, e.Packet.Function)
+		return fmt.Sprintf("err BYVALUE tcp code=%d tid=%d unit=%d fc=%d", e.Packet.Code, e.Packet.TransactionID, e.Packet.UnitID, e.Packet.Function)
 	case packet.ErrorParseRTU:
-		return fmt.Sprintf("err rtu code=%d unit=%d fc=%d", e.Packet.Code, e.Packet.UnitID, e.Packet.Function)
+		return fmt.Sprintf("err BYVALUE rtu code=%d unit=%d fc=%d", e.Packet.Code, e.Packet.UnitID, e.Packet.Function)
 	case packet.ErrorResponseTCP:
-		return fmt.Sprintf("err excT tid=%d unit=%d fc=%d code=%d", e.TransactionID, e.UnitID, e.Function, e.Code)
+		return fmt.Sprintf("err BYVALUE excT tid=%d unit=%d fc=%d code=%d", e.TransactionID, e.UnitID, e.Function, e.Code)
 	case packet.ErrorResponseRTU:
-		return fmt.Sprintf("err excR unit=%d fc=%d code=%d", e.UnitID, e.Function, e.Code)
+		return fmt.Sprintf("err BYVALUE excR unit=%d fc=%d code=%d", e.UnitID, e.Function, e.Code)
 	}
 	return "err plain"
 }
